@@ -55,7 +55,6 @@ func isQuote(c rune) bool { return strings.ContainsRune(allQuotes, c) }
 
 var named = map[string]string{"CR": "\r", "LF": "\n", "CRLF": "\r\n", "TAB": "\t", "SP": " ", "BK": "`"}
 var uplusRe = regexp.MustCompile(`^U\+[0-9A-F]{1,8}$`)
-var uplusLoose = regexp.MustCompile(`^(?i)U\+[0-9a-f]*$`)
 
 // refDecode - the documented reading of a literal that starts at rs[0] (an opening quote).
 // Returns the value, the index after the closing quote, whether a syntax error is expected
@@ -69,8 +68,6 @@ func refDecode(rs []rune) (val string, end int, wantErr bool, unspec string) {
 	for i < len(rs) {
 		c := rs[i]
 		switch {
-		case c == 0:
-			return "", 0, false, "NUL inside the source"
 		case c == '`':
 			j := -1
 			for k := i + 1; k < len(rs); k++ {
@@ -91,16 +88,14 @@ func refDecode(rs []rune) (val string, end int, wantErr bool, unspec string) {
 				continue
 			}
 			if uplusRe.MatchString(body) {
+				// only a valid code point denotes a character; any other number is "other
+				// backtick text" and kept literally, like lower-case or over-long digits
 				n, err := strconv.ParseUint(body[2:], 16, 64)
-				if err != nil || n > 0x10FFFF || (n >= 0xD800 && n <= 0xDFFF) {
-					return "", 0, false, "U+ escape that is not a valid code point"
+				if err == nil && n <= 0x10FFFF && !(n >= 0xD800 && n <= 0xDFFF) {
+					b.WriteRune(rune(n))
+					i = j + 1
+					continue
 				}
-				b.WriteRune(rune(n))
-				i = j + 1
-				continue
-			}
-			if uplusLoose.MatchString(body) {
-				return "", 0, false, "U+ escape with lower-case / missing / too many hex digits"
 			}
 			if br := []rune(body); len(br) == 1 && isQuote(br[0]) {
 				b.WriteRune(br[0])
@@ -337,7 +332,7 @@ func encode(t *rapid.T, text string, open rune) (string, []string) {
 	for i := 0; i < len(rs); i++ {
 		c := rs[i]
 		switch {
-		case c == 0:
+		case c == 0 && rapid.Bool().Draw(t, "nul-escaped"):
 			b.WriteString("`U+0`")
 		case c == '`':
 			b.WriteString("`BK`")
@@ -410,6 +405,68 @@ func checkRoundTrip(c rtCase) []h.Failure {
 		}
 	}
 	return nil
+}
+
+// TestEveryCodePointValue - every Unicode scalar value, alone between the quotes and written as
+// `U+hex`, is the VALUE of the program 输出“…” (token, tree node and run-time text all involved)
+func TestEveryCodePointValue(t *testing.T) {
+	shard, nsh := h.Shard(), h.NShards()
+	stride := h.Scale(61, 1)
+	var total, nontriv int64
+	for cp := rune(shard); cp <= 0x10FFFF; cp += rune(nsh) {
+		if cp >= 0xD800 && cp <= 0xDFFF {
+			// not a character: the escape is "other backtick text" and stays as written
+			if cp&0xFF < 4 || cp&0xFF > 0xFC || stride == 1 {
+				esc := fmt.Sprintf("`U+%X`", cp)
+				total++
+				nontriv++
+				c := rtCase{Text: "a" + esc, Literal: "“a" + esc + "”"}
+				if fails := checkRoundTrip(c); len(fails) > 0 || cp == 0xD800 {
+					h.R.Case(t, "roundtrip", c.Literal, c, []string{"escape-of-invalid-code-point"}, true, fails)
+				}
+			}
+			continue
+		}
+		if cp >= 0x3100 && stride > 1 && (int(cp)/nsh)%stride != 0 && cp&0xFFFF > 2 && cp&0xFFFF < 0xFFFD {
+			continue
+		}
+		text := string(cp)
+		forms := []string{fmt.Sprintf("“`U+%X`”", cp), fmt.Sprintf("「x`U+%04X`」", cp)}
+		texts := []string{text, "x" + text}
+		if !isQuote(cp) && cp != '`' && cp != '\r' && cp != '\n' {
+			forms = append(forms, "“"+text+"”", "「"+text+"é」")
+			texts = append(texts, text, text+"é")
+		}
+		for i, lit := range forms {
+			total++
+			c := rtCase{Text: texts[i], Literal: lit}
+			fails := checkRoundTrip(c)
+			nt := cp < 0x20 || cp >= 0x7F
+			if nt {
+				nontriv++
+			}
+			if len(fails) > 0 || int(cp)%65521 == 80 {
+				h.R.Case(t, "roundtrip", lit, c, []string{"every-code-point"}, nt, fails)
+			}
+		}
+	}
+	if shard == 0 {
+		for _, n := range []uint64{0x110000, 0x110001, 0x1FFFFF, 0xFFFFFF, 0x7FFFFFFF, 0x80000000, 0xFFFFFFFF} {
+			esc := fmt.Sprintf("`U+%X`", n)
+			total++
+			nontriv++
+			c := rtCase{Text: esc + "b", Literal: "「" + esc + "b」"}
+			h.R.Case(t, "roundtrip", c.Literal, c, []string{"escape-of-invalid-code-point"}, true, checkRoundTrip(c))
+		}
+	}
+	h.R.AddEvals(total)
+	h.R.AddDistinct(nontriv)
+	h.R.Count("code-point-literals", total)
+	what := "every Unicode scalar value"
+	if stride > 1 {
+		what = fmt.Sprintf("every Unicode scalar value below U+3100, the first and last three of every plane, and every %dth of the rest", stride)
+	}
+	h.R.Exhaustive("roundtrip", what+", raw between the quotes (alone and beside another character) and as `U+hex` (shard "+fmt.Sprintf("%d/%d", shard, nsh)+")")
 }
 
 func TestRoundTrip(t *testing.T) {
